@@ -31,7 +31,9 @@
           timer, and is never seen later than its deadline + LATE_US (so an attacker address is
           never kept beyond the validation window);
     (d) liveness, sampled: at the end, if the last 8 or more datagrams routed to the connection
-        were genuine ones from the client's current address, the server's remote is that address;
+        were genuine ones from the client's current address, the server's remote is that address
+        (scenario key 905, set by the generator for loss-free constant-delay links with a single
+        move: ONE such datagram obliges — an ACK-only packet is not a probing packet);
     (e) C15_new_path_amplification_bound on an independent ledger (bytes of transmits to the
         unvalidated remote vs. bytes of datagrams delivered from it since the migration batch);
         C15_transmit_destinations: a transmit to any other address is the one previous-path
@@ -79,6 +81,7 @@ Definition reset_good (c : cst) : cst :=
 Section Mon.
   Variable allowed : bool.
   Variable late : Z.
+  Variable good_needed : Z.   (* rule (d): length of the trailing run of genuine datagrams that obliges the server *)
 
   (* the state after a migration was recognised at probe [r] (old probe values in [c]) *)
   Definition after_mig_ok (c : cst) (r : list Z) (y : Z) : bool :=
@@ -217,11 +220,11 @@ Section Mon.
       if forallb (fun kc =>
            let c := snd kc in
            negb ((fst (fst kc) =? 1) && (c_st c =? 1) && allowed && (1 <? Z.of_nat (length (cli s)))
-                 && (8 <=? c_good c))
+                 && (good_needed <=? c_good c))
            || (c_rem c =? cc)) (conns s)
       then Some s else None
     else Some s.
 End Mon.
 
 Definition monitor (i : ops) (o : outs) : option Z :=
-  snd (run_from (step (negb (param i 58 1 =? 0)) (param i 41 0)) 0 (mk [0] []) o).
+  snd (run_from (step (negb (param i 58 1 =? 0)) (param i 41 0) (if param i 905 0 =? 1 then 1 else 8)) 0 (mk [0] []) o).
